@@ -132,7 +132,7 @@ m = {
  ],
  "checks": [],
  "not_applicable": [],
- "notes": "Technique family: runtime monitoring. Exit 0 = held on everything explored (KNOWN-FINDING lines allowed), 1 = unlisted violation (VIOLATION line), 2 = inconclusive (observed too little / watchdog), 3 = harness or build error. KNOWN_FINDINGS.json is read-only at run time.",
+ "notes": "Technique family: runtime monitoring. Exit 0 = held on everything explored (KNOWN-FINDING lines allowed), 1 = unlisted violation (VIOLATION line), 2 = inconclusive as a whole (could not build or start, observed too little, or many cases could not be set up), 3 = harness or build error. A few cases whose set-up watchdog fired are printed as INCONCLUSIVE-CASE (not judged), counted in the evidence and do not change exit 0. KNOWN_FINDINGS.json is read-only at run time.",
 }
 for pid in ALL:
     if pid in CHECKS:
